@@ -169,6 +169,10 @@ def run(prop, tier, seed):
     rng = random.Random(seed)
     modes_wanted = {"C08": [False], "C07": [True, False]}.get(prop, [True])
     n_states = n_edges = 0
+    if prop in ("C01", "C03"):
+        res = tlc.run_mc("MC_temporal.cfg", "MCTemporal.tla", workers=8, timeout=900)
+        chk.add_mc(res, "Merge lemma: merging a non-rejected span into a canonical timeline gives the canonical timeline of the union "
+                        "(all 1,024 canonical timelines over 0..9 x all spans)")
     for cfg in CFGS[tier]:
         states, alphabet = mc_states(chk, cfg, INVS[prop])
         states = [s for s in states if s["rem"] in modes_wanted]
